@@ -170,22 +170,22 @@ Proof.
 Qed.
 
 (* named gradient / Hessian of the aggregated output *)
-Theorem named_gradient_spec keys (g : list R) :
+Theorem named_gradient_spec {A} (d : A) keys (g : list A) :
   List.length g = List.length (sorted_names keys) ->
-  named_gradient (Some g) (fst (expressions_names_indices keys)) = Some (Some (combine (sorted_names keys) g)).
+  named_gradient d (Some g) (fst (expressions_names_indices keys)) = Some (Some (combine (sorted_names keys) g)).
 Proof. intros H. unfold named_gradient. rewrite convert_to_dict_spec by exact H. reflexivity. Qed.
 
-Theorem named_gradient_none mapping : named_gradient None mapping = None.
+Theorem named_gradient_none {A} (d : A) mapping : named_gradient d None mapping = None.
 Proof. reflexivity. Qed.
 
-Theorem named_hessian_spec keys (h : list (list R)) :
+Theorem named_hessian_spec {A} (d : A) keys (h : list (list A)) :
   List.length h = List.length (sorted_names keys) ->
   Forall (fun row => List.length row = List.length (sorted_names keys)) h ->
-  named_hessian (Some h) (fst (expressions_names_indices keys))
+  named_hessian d (Some h) (fst (expressions_names_indices keys))
   = Some (Some (combine (sorted_names keys) (map (fun row => Some (combine (sorted_names keys) row)) h))).
 Proof.
   intros Hl Hrows. unfold named_hessian.
-  assert (E : map (fun row => convert_to_dict 0%R row (fst (expressions_names_indices keys))) h
+  assert (E : map (fun row => convert_to_dict d row (fst (expressions_names_indices keys))) h
               = map (fun row => Some (combine (sorted_names keys) row)) h).
   { apply map_ext_in. intros row Hin. rewrite Forall_forall in Hrows.
     apply convert_to_dict_spec. apply Hrows, Hin. }
